@@ -53,6 +53,11 @@ CHECKS = {
    note="Trusted: Coq kernel, extraction, driver, harness; 'never hangs' is tested under an alarm for the real tokenizer, not proved (the model terminates by Coq's guard condition); oracle answers come from CPython; split_google_docblocks is an oracle of the Collect model (its own model is in the C08 check).",
    technique="Coq proof (every Err of the parser model is a parse error: induction over the model's functions; generator containment) + differential correspondence on grammar fuzz + direct escape/timeout/neighbour search",
    design="5/C14"),
+ 'C17': dict(
+   text="Coq theorems over the model of util_import (check_dpath/_isvalid, the sys.path loop, normalize_modpath, split_modpath, modpath_to_modname) on an abstract file system, against the declarative regular import resolution Spec/ImportResolve.v: C17_resolve_iff (for EVERY well-formed tree, root and dotted name of any depth, check_dpath finds exactly the regular package directory or .py file the import system resolves, and nothing otherwise), C17_syspath_resolve, C17_first_root_wins, C17_roundtrip (name -> path -> name when the search root is not itself a package), C17_split_joins, C17_split_spec. Tie to the code: every parent-closed tree with <=5/6 of 14 candidate entries (packages, modules, plain directories beside same-named .py files, __main__.py, underscore names) plus seeded larger trees, created under a temp root: modname_to_modpath / modpath_to_modname / split_modpath / normalize_modpath (4 settings) on all names and paths vs the extracted model (tree read back with os.walk); independently the implementation vs importlib.machinery.FileFinder part by part, the round trip, two-root search paths, and import_module_from_path (module name, sys.path unchanged; importing, raising, missing modules).",
+   note="Trusted: Coq kernel, extraction, driver, harness; os.path / os.walk; symlinks, case-insensitive file systems, extension suffixes, egg-links and editable finders are outside the model and never generated; PEP 420 namespace portions count as 'nothing there' (DESIGN reading note); sys.path restoration is C12's model.",
+   technique="Coq proof (induction over the name parts / the path, refinement to a declarative resolution spec) + exhaustive differential correspondence on real directory trees + FileFinder oracle search",
+   design="5/C17"),
 }
 
 NOT_APPLICABLE = {}
